@@ -508,6 +508,12 @@ class Facts:
                             r_ = m.get("res")
                             if isinstance(r_, dict) and r_.get("r") == "local" and isinstance(r_.get("id"), int):
                                 r_["id"] = fresh(r_["id"])
+                        ps_ = copy.deepcopy(new[c].get("params", []))
+                        for q_ in ps_:
+                            for m in walk(q_):
+                                if m.get("p") == "Bind" and isinstance(m.get("id"), int):
+                                    m["id"] = fresh(m["id"])
+                        n["inlined_params"] = ps_     # the helper's parameter patterns, with the ids they have in this copy
                         # literal arguments and plain locals / constants (possibly cloned or borrowed) are propagated into the copy: a parameterised
                         # helper called with ("left", left.clone()) reads like the code it was extracted from
                         arg_nodes = ([n["recv"]] + list(n.get("args", []))) if n.get("k") == "MethodCall" else list(n.get("args", []))
